@@ -15,6 +15,7 @@ import (
 	"sort"
 	"strings"
 	"sync"
+	"net/http"
 	"time"
 
 	"github.com/invopop/gobl"
@@ -751,7 +752,7 @@ func runC15(c *Ctx) {
 		}
 	}
 	c15bulk(c, tmp)
-	c.Require("bulk_streams:gomaxprocs=1", "bulk_sign_key_ids_checked", "registry_alias_checks", "cold_start_processes", "bulk_requests")
+	c.Require("bulk_streams:gomaxprocs=1", "bulk_sign_key_ids_checked", "registry_alias_checks", "cold_start_processes", "bulk_requests", "bulk_streams_from_half_closed_client")
 }
 
 // ---- bulk stream checker -----------------------------------------------------------
@@ -964,7 +965,26 @@ func c15bulk(c *Ctx, tmp string) {
 			wit := func() map[string]any {
 				return map[string]any{"stream": s, "requests": kinds}
 			}
-			resp, err := server.PostStream("/bulk", &body)
+			// every third stream comes from a client that sends everything, closes its
+			// sending half and keeps reading (a pipe into nc); its last requests are slow
+			// ones, so that responses are still due when the server sees the end of input
+			var resp *http.Response
+			var err error
+			if s%3 == 2 && !endsBroken {
+				for k := 0; k < 2; k++ {
+					n++
+					r := bulkReq{"sleep", fmt.Sprintf("s%d-r%d", s, n), fmt.Sprintf("%dms", 60+40*k+rng.IntN(40))}
+					reqs = append(reqs, r)
+					kinds = append(kinds, "sleep")
+					b, _ := json.Marshal(r)
+					body.Write(b)
+					body.WriteByte('\n')
+				}
+				c.R.Count("bulk_streams_from_half_closed_client", 1)
+				resp, err = server.PostHalfClosed("/bulk", body.Bytes(), 5*time.Minute)
+			} else {
+				resp, err = server.PostStream("/bulk", &body)
+			}
 			if err != nil {
 				c.R.Count("bulk_transport_errors", 1)
 				return
